@@ -44,6 +44,10 @@ pub const WORDS: Table = &[
     (2, "longerword"),
     (2, "1"),
     (1, "42"),
+    // long unbreakable tokens as they occur in real text (a sha256 digest,
+    // a base64-ish blob): 64 and 100 plain ASCII bytes
+    (1, "9f86d081884c7d659a2feaa0c55ad015a3bf4f1b2b0b822cd15d6c15b0f00a08"),
+    (1, "QmFzZTY0IGVuY29kZWQgZGF0YSB0aGF0IGlzIGV4YWN0bHkgb25lIGh1bmRyZWQgY2hhcmFjdGVycyBsb25nIGFiY2RlZmdoaWo0"),
 ];
 
 pub const SPACES: Table = &[(24, " "), (5, "  "), (2, "   "), (1, "     ")];
